@@ -241,9 +241,9 @@ fn simplify_raw<'l>(arg: &mut Argument<'l>) -> Result<bool, SimplifyError>
 					{
 						match lrhs.as_ref()
 						{
-							&Argument::Constant(Number::Integer(inner_div)) if inner_div <= divisor =>
+							&Argument::Constant(Number::Integer(inner_div)) if inner_div.unsigned_abs() <= divisor.unsigned_abs() =>
 							{
-								// special case where `(x % y) % z == x % y` because `y <= z`
+								// special case where `(x % y) % z == x % y` because `|y| <= |z|`
 								*arg  = mem::replace(lhs.as_mut(), Argument::Constant(Number::Integer(0)));
 								true
 							},
